@@ -37,12 +37,12 @@ RULE = (
 )
 STATE_ABSTRACTION = "(per location: stored depth capped at 5, number of constrained slots, last op kind)"
 ASSUMPTIONS = [
-    "writes go to index 0 (plus the model's initialisation write to all indices of a fresh slot), as in the statement",
+    "writes go to index 0 (plus the model's initialisation write to all indices of a fresh slot - one location or both in one call - and an additive increment to one older slot right after it), as in the statement",
     "values are multiples of 1/4 below 2**20 (floats with a fractional part, or integer-typed arrays): additive results are exact, comparison is bitwise",
 ]
 PROBES = ["observation_sparse", "observation_end", "slots_created_in_non_ascending_order", "result_kept_by_caller", "zero_increment", "caller_edits_returned_variable_list", "interface_variable_same_name", "interface_variable", "depth_changed_during_run", "shift_none_grows", "shift_on_empty", "additive_after_shift", "alias_probe_get", "alias_probe_set",
           "rejected_additive_empty", "rejected_negative_index", "rejected_no_index", "rejected_two_indices_get", "rejected_get_beyond_depth",
-          "rejected_shift_negative", "rejected_shift_location", "set_both_locations", "integer_dtype_value", "depth_ge3_filled", "init_all_indices", "depth3_window_filled"]
+          "rejected_shift_negative", "rejected_shift_location", "set_both_locations", "integer_dtype_value", "depth_ge3_filled", "init_all_indices", "depth3_window_filled", "init_both_locations_one_call", "additive_at_older_index"]
 
 LOCS = (pp.TIME_STEP_SOLUTIONS, pp.ITERATE_SOLUTIONS)
 
@@ -216,16 +216,36 @@ def run_helpers(ch, tr: Trace) -> None:
         if w.n:
             return
         d = ch.rng(1, 3)
-        v = fresh_value(counter, size, ch.flag(1, 5))
+        as_int = ch.flag(1, 5)
+        v = fresh_value(counter, size, as_int)
         order = ch.shuffle(list(range(d)))  # a history may be seeded oldest first, or index 1 before index 0
         if order != sorted(order):
             tr.probe("slots_created_in_non_ascending_order")
+        # the model's initialisation writes time-step and iterate storage in ONE call per index; the two locations must
+        # remain independent slots afterwards (seeded change C08-m: one shared snapshot for all locations at index > 0)
+        other = LOCS[1] if loc == LOCS[0] else LOCS[0]
+        both = model[(other, nm)].n == 0 and ch.flag(1, 2)
         for i in order:
-            pp.set_solution_values(nm, v, data, **kw(loc, i))
+            k = dict(kw(loc, i))
+            if both:
+                k.update(kw(other, i))
+            pp.set_solution_values(nm, v, data, **k)
         w.init_all(v, d)
+        if both:
+            model[(other, nm)].init_all(v, d)
+            tr.probe("init_both_locations_one_call")
         tr.probe("init_all_indices")
-        tr.op("init", "ok", nm, loc, d)
+        tr.op("init", "ok", nm, loc, d, both)
         check_all("init")
+        if d >= 2 and ch.flag(1, 2):
+            # an increment applied to one older slot of one location (additive write at index > 0) changes that slot only
+            i = ch.rng(1, d - 1)
+            inc = fresh_value(counter, size, as_int)
+            pp.set_solution_values(nm, inc.copy(), data, additive=True, **kw(loc, i))
+            w.slots[i] = (w.slots[i][0] + inc, True)
+            tr.probe("additive_at_older_index")
+            tr.op("set_older", "ok", nm, loc, i)
+            check_all(f"additive set({nm}, {kw(loc, i)}) after init", force=True)
 
     def op_shift():
         nm = ch.choice(names)
